@@ -309,8 +309,10 @@ func (e *envT) oracle(w *worker, pre *wstate, o opDef, fault, where string, so *
 		if !pre.AllowInc || pre.hasValid(oid) {
 			return false
 		}
-		present, _ := pre.serverHas(e.fileMode, ri, oid)
-		return !present
+		// "on the server" = stored there with the right bytes: a file:// remote in whose store a wrong file already sits
+		// under the object's name (scenario filestore) does not have the object
+		_, right := pre.serverHas(e.fileMode, ri, oid)
+		return !right
 	}
 	checkOnServer := func(needs []need, what string, staleClass func(n need) string) {
 		for _, n := range needs {
@@ -1253,10 +1255,70 @@ func (e *envT) mkIncomplete(base snap) *scenario {
 
 // extraInitOps: operations that only build initial states (not part of any explored alphabet).
 func extraInitOps() []opDef {
-	return []opDef{
+	r := []opDef{
 		{Name: "truncate-object A2", Kind: "truncobj", Label: "A2"},
 		{Name: "truncate-object B1", Kind: "truncobj", Label: "B1"},
 	}
+	for _, l := range []string{"A1", "E1", "A2", "B1"} {
+		for _, f := range remoteStoreForms {
+			r = append(r, opDef{Name: "remote-store " + l + " " + f, Kind: "rstore", Label: l, Form: f})
+		}
+	}
+	return r
+}
+
+// remoteStoreForms: what may already sit under an object's name in the LFS store of a file:// remote before a push.
+var remoteStoreForms = []string{"correct", "truncated", "empty", "longer", "directory"}
+
+// mkFileStore: scenario "filestore" = the file:// transport (standalone file transfer) crossed with the PRE-STATE of the
+// remote's LFS store for one object of the pushed range.  Initial worlds = {history shape} x {the remote's store holds
+// nothing under the names of the new objects; under the name of ONE new object (each of them in turn) it already holds
+// the correct file / a truncated file / an empty file / a longer file / a directory} x {the local store is complete; that
+// very object is deleted from the local store} x {lfs.allowincompletepush false, true}.  Depth 1: every push form is run
+// from every world.  Oracle unchanged.  Same-size-but-wrong-bytes files are not enumerated (see the assumptions).
+func (e *envT) mkFileStore(base snap) *scenario {
+	pushes := []string{"git push origin <cur>", "git lfs push origin <cur>", "git push origin main f", "git lfs push origin main f", "git push origin --all", "git lfs push origin --all"}
+	type world struct {
+		desc, seq string
+		objs      []string
+	}
+	worlds := []world{
+		{"c0 pushed; local main=c0+{a.bin->A2}+{b.bin->B1} (two commits, one ref)", "git push origin <cur>; commit a.bin=A2; commit b.bin=B1", []string{"A2", "B1"}},
+		{initDiverged[0], initDiverged[1], []string{"A2", "B1"}},
+	}
+	if e.thorough {
+		pushes = append(pushes, "git -c lfs.transfer.batchsize=1 push origin --all", "git push -f origin <cur>")
+		worlds = append(worlds, world{"nothing pushed; local main=c0+{a.bin->A2} (new branch, three new objects)", "commit a.bin=A2", []string{"A1", "E1", "A2"}})
+	}
+	sc := &scenario{Name: "filestore", FileMode: true, Depth: 1, FaultDepth: 0, Weight: 1}
+	sc.Ops = pick(append(localOps(true, true), remoteOps(0, true, true)...), pushes...)
+	var defs [][2]string
+	for _, w := range worlds {
+		type pre struct{ desc, seq string }
+		pres := []pre{{"", ""}}
+		for _, l := range w.objs {
+			for _, f := range remoteStoreForms {
+				d := fmt.Sprintf("the remote's LFS store already holds %s under the name of %s", map[string]string{"correct": "the correct file", "truncated": "a truncated file",
+					"empty": "an empty file", "longer": "a longer file", "directory": "a directory"}[f], l)
+				pres = append(pres, pre{d, "remote-store " + l + " " + f})
+				pres = append(pres, pre{d + "; " + l + " deleted from the local store", "remote-store " + l + " " + f + "; rm-object " + l})
+			}
+		}
+		for _, allow := range []bool{false, true} {
+			for _, p := range pres {
+				desc, seq := w.desc, w.seq
+				if p.seq != "" {
+					desc, seq = desc+"; "+p.desc, seq+"; "+p.seq
+				}
+				if allow {
+					desc, seq = desc+"; lfs.allowincompletepush=true", seq+"; toggle lfs.allowincompletepush"
+				}
+				defs = append(defs, [2]string{desc, seq})
+			}
+		}
+	}
+	e.mkInits(sc, base, defs)
+	return sc
 }
 
 func (e *envT) scenarios() []*scenario {
@@ -1333,8 +1395,9 @@ func (e *envT) scenarios() []*scenario {
 			file.Depth = 4
 		}
 		e.mkInits(file, baseFile, [][2]string{initSynced, initUnpushed})
+		fstore := e.mkFileStore(baseFile)
 		e.eachWorker(func(w *worker) { w.setTransport(false) })
-		ps = append(ps, file)
+		ps = append(ps, file, fstore)
 	}
 	ps = append(ps, main, graphs) // the two largest scenarios run late: a deadline cuts them, not the others
 	if e.thorough {
@@ -1367,6 +1430,9 @@ func TestVerifC03(t *testing.T) {
 		"{lfs.allowincompletepush false, true} x {nothing missing, A2 / B1 deleted from the local store (thorough: or truncated)}; every push form (pre-push hook and `git lfs push`; the current branch, two refs in one invocation, thorough: --all, -f, batchsize 1) is run from every world fault-free and under every fault " +
 		"restricted to ONE object (`<fault>@A2`, `<fault>@B1`: only the storage PUT / verify callback / batch-response entry of that object is faulty), so that the fault hits the object that is nowhere or the other, present, object; " +
 		"a fault restricted to an object outside the range of the push is not run (the server never answers a request about it). " +
+		"Scenario filestore (depth 1, file:// remote with the standalone file transfer) crosses the push forms with the PRE-STATE of the remote's LFS store: initial worlds = {two new objects A2, B1 in two commits of one ref; on two diverged branches; thorough: a branch the remote does not have} x " +
+		"{nothing under the names of the new objects; under the name of ONE new object (each in turn) the store already holds the correct file / a truncated file / an empty file / a longer file / a directory} x {local store complete; that object deleted from the local store} x {lfs.allowincompletepush false, true}; " +
+		"every push form (pre-push hook and `git lfs push`; the current branch, two refs in one invocation, --all; thorough: batchsize 1, -f) is run from every world. " +
 		"A case = (state, push operation, fault); it is non-trivial when the pushed range references at least one LFS object or something was uploaded; distinct = distinct (canonical state key, operation, fault). " +
 		"Scenario faultseq (not BFS): on a few designated pushes (one new object / two new objects, pre-push hook and `git lfs push`, with and without a verify callback, lfs.transfer.maxretries 1 or 2) every answer of the LFS server " +
 		"to a batch request, a storage PUT or a verify callback is a choice point (nominal answer, or one of: batch 429 with Retry-After 1 / 429 / 500 / 503 / connection reset; PUT 500 / 503 / 429 / 429 with Retry-After 1 / connection cut after the body; " +
@@ -1375,10 +1441,10 @@ func TestVerifC03(t *testing.T) {
 		"The designated pushes include pushes from worlds in which lfs.allowincompletepush=true and one object of the pushed range is nowhere while another one is present and new (one ref; thorough: also two refs in one invocation)."
 	c.Assumptions = []string{
 		"P1 (git push): for every commit in `rev-list <remote refs after> --not <remote refs before>` (computed in the bare remote), every blob that is a spec pointer (strict decoder written from docs/spec.md, incl. extension lines; read with ls-tree/cat-file) names an object stored on that remote's LFS server whose bytes hash to the oid. Demanded whenever refs of the remote changed (a ref that was updated is a push that succeeded for that ref), whatever the exit code of git.",
-		"P1 exemption: with lfs.allowincompletepush=true, an object that before the push was neither validly in the local store nor on the server is not demanded. The exemption is per object: every other object of the newly reachable commits is demanded, whatever else went wrong in the same push (scenario incomplete and the fault sequences cross a server fault on a present object with another object being nowhere).",
+		"P1 exemption: with lfs.allowincompletepush=true, an object that before the push was neither validly in the local store nor (with the right bytes) on the server is not demanded. The exemption is per object: every other object of the newly reachable commits is demanded, whatever else went wrong in the same push (scenario incomplete and the fault sequences cross a server fault on a present object with another object being nowhere).",
 		"P2 (git push): model of what git hands to the hook = selected local refs that are not up to date, not a tag that exists remotely with another value and (unless -f) fast-forward. If an object referenced by `rev-list <those> --not <remote refs before>` is not validly in .git/lfs/objects, no top-level work-tree file has its bytes (git-lfs re-cleans the work-tree file: that counts as locally present) and the server lacks it, and lfs.allowincompletepush is not true, then git must exit non-zero and no ref of the remote may change.",
 		"git lfs push does not move refs, so 'commits that became reachable through that push' is read through its documented selection (git-lfs-push(1)): `<remote> <ref>...`: objects of commits reachable from the named ref(s) and not from the local clone's remote-tracking refs of that remote; `--all`: objects of every commit reachable from any local branch or tag; `--object-id`: the named objects. Exit 0 => all of them on the server with the right bytes (same exemption); one of them nowhere => exit != 0.",
-		"The fake LFS servers never delete objects on their own (scenario 'servergc' adds an explicit garbage-collection operation that removes objects no ref of the remote refers to) and store PUT bodies without hashing them, so 'the right bytes' is checked by the oracle, not enforced by the server. A truncated (wrong-size) local object counts as absent locally.",
+		"The fake LFS servers never delete objects on their own (scenario 'servergc' adds an explicit garbage-collection operation that removes objects no ref of the remote refers to) and store PUT bodies without hashing them, so 'the right bytes' is checked by the oracle, not enforced by the server. A truncated (wrong-size) local object counts as absent locally. For a file:// remote 'the server' is the bare repository's lfs/objects: a file there whose bytes do not hash to its name is not the object (P1 demands the right bytes after a successful push whatever sat there before; for the lfs.allowincompletepush exemption such a file counts as 'not on the server'; for P2 it conservatively counts as present, so P2 demands nothing), a directory under the object's name is no object at all. Not enumerated: a file of the RIGHT size with wrong bytes already in the remote's store (git-lfs compares sizes only, as it does for local objects; like the same-size corruption of a local object this is storage corruption that no size-based protocol step can see, and the http batch API likewise reports such an object as present).",
 		"Another client is modelled as a correct client acting directly on the bare remote: it only moves branches to commits whose objects are on the server, or uploads its object before pushing.",
 		"Commits are built with git plumbing (hash-object, mktree, commit-tree, update-ref) and the LFS objects are placed into .git/lfs/objects as the clean filter would; at start the harness checks that its pointer texts equal the output of the real `git lfs clean`, that `git lfs pointer --check` accepts the 1023-byte pointer and that `git lfs update` installed the pre-push hook. The work tree contains only files written by the rm-object variants.",
 		"Remotes are local paths (git's own transport is not the subject); the LFS leg is real HTTP to loopback servers, or the standalone file transfer for file:// remotes (scenario 'file').",
